@@ -177,6 +177,7 @@ type verifC11World struct {
 	epoch           int
 	seq             int
 	cur             *verifC11Version
+	all             []*verifC11Version
 	byIdx           map[uint64]*verifC11Version
 	queue           []verifC11Batch
 	atRestoreQueued map[uint64]bool // batches that were still queued when a restore happened
@@ -329,6 +330,7 @@ func (w *verifC11World) record(idx uint64) []string {
 		}
 	}
 	w.cur = v
+	w.all = append(w.all, v)
 	if idx > 0 {
 		w.byIdx[idx] = v
 	}
@@ -658,7 +660,10 @@ func (w *verifC11World) consume(s *verifC11Sub, n int) {
 	}
 }
 
-var verifC11Trace = os.Getenv("VERIF_C11_TRACE") != ""
+var (
+	verifC11Trace          = os.Getenv("VERIF_C11_TRACE") != ""
+	verifC11SubscriberSkip = os.Getenv("VERIF_C11_SUBSCRIBER_SKIP") != ""
+)
 
 func verifC11DescribeEvent(e *pbsubscribe.Event) string {
 	var parts []string
@@ -724,6 +729,10 @@ func (w *verifC11World) deliver(s *verifC11Sub, ev stream.Event) (delivered, ok 
 		if first {
 			w.c.Label("mode=resume-in-buffer")
 			s.eligible = true
+		}
+		if verifC11SubscriberSkip && e.Index < s.lastIdx {
+			// evaluation aid (VERIF_C11_SUBSCRIBER_SKIP=1): mirror of fixes/C11-materializer-ignores-stale-batches.diff
+			return false, true
 		}
 		if err := s.view.Update(verifC11EventsFromEvent(e)); err != nil {
 			w.f.Fatalf("verif C11: view.Update(event): %v", err)
@@ -815,9 +824,10 @@ func (w *verifC11World) kindsOnly(s *verifC11Sub, got, want []string) bool {
 }
 
 // nativeOffOnly reports whether a ServiceHealthConnect mismatch consists only of instances the view still holds as
-// connect-native while the store (version ver) holds the same instance as a plain, non-native service: the update
-// that turns Connect.Native off is published on the ServiceHealth topic only, nothing removes the instance from the
-// Connect topic.
+// connect-native although the store, at some version after the copy the view holds and not later than ver, had the
+// same instance as a plain, non-native service: the update that turns Connect.Native off is published on the
+// ServiceHealth topic only, nothing removes the instance from the Connect topic (nor does its later deregistration,
+// which is no longer connect-relevant either).
 func (w *verifC11World) nativeOffOnly(s *verifC11Sub, got, want []string, ver *verifC11Version) bool {
 	if s.q.Topic != "ServiceHealthConnect" {
 		return false
@@ -826,11 +836,22 @@ func (w *verifC11World) nativeOffOnly(s *verifC11Sub, got, want []string, ver *v
 	for _, x := range want {
 		m[x] = true
 	}
-	plain := map[string]bool{} // ids of plain instances of the service in the store
-	for _, line := range ver.res[verifC11Q{Topic: "ServiceHealth", Name: s.q.Name, Peer: s.q.Peer}.id()].Items {
-		if id, native, kind, ok := verifC11ParseCSN(line); ok && !native && kind == "" {
-			plain[id] = true
+	hq := verifC11Q{Topic: "ServiceHealth", Name: s.q.Name, Peer: s.q.Peer}.id()
+	wasPlainAfter := func(id string, modify uint64) bool {
+		for _, v := range w.all {
+			if v.seq > ver.seq {
+				break
+			}
+			if v.idx != 0 && v.idx <= modify {
+				continue
+			}
+			for _, line := range v.res[hq].Items {
+				if pid, native, kind, _, ok := verifC11ParseCSN(line); ok && pid == id && !native && kind == "" {
+					return true
+				}
+			}
 		}
+		return false
 	}
 	g := map[string]bool{}
 	n := 0
@@ -839,8 +860,8 @@ func (w *verifC11World) nativeOffOnly(s *verifC11Sub, got, want []string, ver *v
 		if m[x] {
 			continue
 		}
-		id, native, _, ok := verifC11ParseCSN(x)
-		if !ok || !native || !plain[id] {
+		id, native, _, modify, ok := verifC11ParseCSN(x)
+		if !ok || !native || !wasPlainAfter(id, modify) {
 			return false
 		}
 		n++
@@ -898,21 +919,22 @@ func (w *verifC11World) gatewayGoneOnly(s *verifC11Sub, got, want []string, ver 
 	return n > 0
 }
 
-func verifC11ParseCSN(line string) (id string, native bool, kind string, ok bool) {
+func verifC11ParseCSN(line string) (id string, native bool, kind string, modify uint64, ok bool) {
 	id, js, found := strings.Cut(line, " => ")
 	if !found {
-		return "", false, "", false
+		return "", false, "", 0, false
 	}
 	var v struct {
 		Service struct {
-			Kind    string
-			Connect struct{ Native bool }
+			Kind        string
+			ModifyIndex uint64
+			Connect     struct{ Native bool }
 		}
 	}
 	if err := json.Unmarshal([]byte(js), &v); err != nil {
-		return "", false, "", false
+		return "", false, "", 0, false
 	}
-	return id, v.Service.Connect.Native, v.Service.Kind, true
+	return id, v.Service.Connect.Native, v.Service.Kind, v.Service.ModifyIndex, true
 }
 
 // explained names the listed root cause that fully accounts for a view/query difference, or returns fallback.
@@ -1074,7 +1096,11 @@ func (w *verifC11World) onEvent(s *verifC11Sub, i uint64) bool {
 	}
 	exp := ver.res[s.q.id()]
 	if !w.sameItems(s, got, exp.Items) {
-		key := w.classify(s, i, ver, w.explained(s, got, exp.Items, ver, "C11/view-differs-from-query-at-index/topic="+s.q.Topic))
+		fallback := "C11/view-differs-from-query-at-index/topic=" + s.q.Topic
+		key := w.explained(s, got, exp.Items, ver, fallback)
+		if key == fallback {
+			key = w.classify(s, i, ver, fallback)
+		}
 		return w.tolerate(s, key, "sub#%d %s: after the event with index %d the view differs from the direct query as of raft index %d (unpublished at snapshot: %v):%s",
 			s.id, s.q.id(), i, i, verifC11QueuedOf(s), verifC11Diff(got, exp.Items))
 	}
